@@ -1799,6 +1799,11 @@ func patchCode(context *funcContext) { // {{{
 	}
 	moven := 0
 	code := context.Code.List()
+	// a jump lands on the instruction after its label: a MOVE run must not be merged across it
+	targets := make(map[int]bool, len(context.labelPc))
+	for _, lpc := range context.labelPc {
+		targets[lpc+1] = true
+	}
 	for pc := 0; pc < len(code); pc++ {
 		inst := code[pc]
 		curop := opGetOpCode(inst)
@@ -1853,7 +1858,7 @@ func patchCode(context *funcContext) { // {{{
 		}
 
 		// bulk move optimization(reducing op dipatch costs)
-		if curop == OP_MOVE {
+		if curop == OP_MOVE && !(moven > 0 && targets[pc]) {
 			moven++
 		} else {
 			if moven > 1 {
@@ -1861,6 +1866,9 @@ func patchCode(context *funcContext) { // {{{
 				context.Code.SetC(pc-moven, intMin(moven-1, opMaxArgsC))
 			}
 			moven = 0
+			if curop == OP_MOVE {
+				moven = 1
+			}
 		}
 	}
 	maxreg++
